@@ -301,10 +301,10 @@ def run(ck, facts):
     ck.expect(okk, "R1", "kotlin/Enum.kt.jinja/arms", "NonContiguous prints variant.index, Contiguous uses ordinal", "Kotlin enum template: positional (ordinal/entries) code must only appear in the Contiguous arm and the NonContiguous arm must print variant.index", "tool/templates/kotlin/Enum.kt.jinja")
     # nanobind: by name only
     fl = tmpl.flat_file("nanobind/enum_impl.cpp.jinja", resolve_includes=False)
-    ck.expect(re.search(r"\.value\(\s*\"⟦value⟧\"\s*,\s*⟦type_name⟧::⟦value⟧\s*\)", fl) is not None and "discriminant" not in fl and "loop.index" not in fl, "R1", "nanobind/enum_impl/by-name", "", "nanobind enum registration no longer maps names to the C++ enumerators by name", "tool/templates/nanobind/enum_impl.cpp.jinja")
+    ck.expect(re.search(r"\.value\(\s*\"⟦\s*(\w+)\s*⟧\"\s*,\s*⟦\s*type_name\s*⟧::⟦\s*\1\s*⟧\s*\)", fl) is not None and "discriminant" not in fl and "loop.index" not in fl, "R1", "nanobind/enum_impl/by-name", "", "nanobind enum registration no longer maps names to the C++ enumerators by name", "tool/templates/nanobind/enum_impl.cpp.jinja")
     # cpp FromFFI: cases are the C enumerators, by name
     fl = tmpl.flat_file("cpp/enum_impl.h.jinja", resolve_includes=False)
-    ck.expect(re.search(r"case\s*⟦\s*fmt\.fmt_c_enum_variant\(ctype,\s*enum_variant\)\s*⟧\s*:", fl) is not None and "static_cast<⟦type_name⟧::Value>(c_enum)" in fl, "R1", "cpp/enum_impl/FromFFI", "", "C++ FromFFI no longer switches over the C enumerators and casts the same value", "tool/templates/cpp/enum_impl.h.jinja")
+    ck.expect(re.search(r"case\s*⟦\s*fmt\.fmt_c_enum_variant\(ctype,\s*\w+\)\s*⟧\s*:", fl) is not None and "static_cast<⟦type_name⟧::Value>(c_enum)" in fl, "R1", "cpp/enum_impl/FromFFI", "", "C++ FromFFI no longer switches over the C enumerators and casts the same value", "tool/templates/cpp/enum_impl.h.jinja")
     # js runtime: enum discriminants are read as signed 32-bit integers (negative discriminants)
     rtm = C.read_repo("tool/templates/js/runtime.mjs")
     m = re.search(r"export\s+function\s+enumDiscriminant\s*\(\s*wasm\s*,\s*ptr\s*\)\s*\{(.*?)\n\}", rtm, re.S)
